@@ -33,6 +33,15 @@ def cookie_domain_ok(domain, domain_specified, host):
         # no other. (The cookie jar appends ".local" to dot-less hosts.)
         return domain == host or domain == host + '.local'
 
+    if domain.startswith('.'):
+        domain = domain[1:]
+
+    if '.' not in domain and ':' not in domain:
+        # A single label (a top level domain, an intranet name, or the
+        # "local" that the cookie jar appends to dot-less hosts) is not a
+        # domain that other hosts share.
+        return domain == host
+
     return True
 
 
@@ -76,6 +85,15 @@ class DeFactoCookiePolicy(DefaultCookiePolicy):
             return False
 
         return True
+
+    def set_ok_domain(self, cookie, request):
+        if not DefaultCookiePolicy.set_ok_domain(self, cookie, request):
+            return False
+
+        return cookie_domain_ok(
+            cookie.domain, cookie.domain_specified,
+            http.cookiejar.request_host(request)
+        )
 
     def return_ok_domain(self, cookie, request):
         if not DefaultCookiePolicy.return_ok_domain(self, cookie, request):
